@@ -80,6 +80,11 @@ func genC20Stream(r *core.Rand, g *gen.StmtGen, long bool) c20Stream {
 	// one stream in eight: literals typed over several lines (Enter in the
 	// place of a blank inside the quotes)
 	breakLits := !long && r.Chance(1, 8)
+	// one stream in six arrives as a bracketed paste (ESC [200~ ... ESC [201~,
+	// what a terminal sends for a paste once an application has asked for it):
+	// several lines and statements inside one paste, and characters that are
+	// keys when typed - a tab - inside its literals
+	bracketed := !long && !breakLits && r.Chance(1, 6)
 	for i := 0; i < ns; i++ {
 		var n *proto.NStmt
 		if prevToks != nil && r.Chance(1, 6) {
@@ -88,6 +93,9 @@ func genC20Stream(r *core.Rand, g *gen.StmtGen, long bool) c20Stream {
 		} else if r.Chance(1, 3) {
 			// literal hazards on purpose
 			lits := []string{"a;b", ";", "x ; y", `say "hi"`, "it; is", "SELECT;", "two  spaces", ";;", "end;", "می\u200cخواهم;", "👨\u200d👩\u200d👧", "co\u00adoperate", "zero\u200bwidth", "\ufeffbom; x"}
+			if bracketed {
+				lits = append(lits, "tab\there; x", "a\tb", "\tlead", "col1\tcol2\tcol3;")
+			}
 			if breakLits {
 				lits = []string{"x ; y", "one two; three", "a b c", "first; second; third; fourth", "; ; ;", "it; is", "select 1; select 2; select 3"}
 			}
@@ -188,6 +196,10 @@ func genC20Stream(r *core.Rand, g *gen.StmtGen, long bool) c20Stream {
 		}
 	}
 	st.typed = typed.String()
+	if bracketed {
+		st.typed = "\x1b[200~" + st.typed + "\x1b[201~"
+		hz["bracketed_paste"] = true
+	}
 	st.Hex = hex.EncodeToString([]byte(st.typed))
 	switch r.Intn(3) {
 	case 0:
@@ -199,6 +211,9 @@ func genC20Stream(r *core.Rand, g *gen.StmtGen, long bool) c20Stream {
 		}
 	default:
 		st.mode, st.Chunks = "pasted_full_reads", nil
+	}
+	if bracketed {
+		st.mode = "bracketed_" + st.mode
 	}
 	var hs []string
 	for h := range hz {
@@ -213,7 +228,7 @@ func genC20Stream(r *core.Rand, g *gen.StmtGen, long bool) c20Stream {
 }
 
 func checkC20(c *core.Ctx) []core.Floor {
-	c.Rule = "lists of 1-8 statements (from the C10 grammar plus literals and quoted identifiers containing semicolons, the other quote kind, spaces, keywords, non-ASCII text incl. zero-width joiners / non-joiners, soft hyphens and a byte order mark), each terminated by a semicolon, entered with line breaks (Enter = CR, as in raw mode; now and then two in a row: an empty line inside the statement) at random token boundaries - and, in one stream in eight, inside literals in the place of their blanks (also right after a semicolon of the literal); for those streams white space inside tokens is not compared, everything else is - several statements per line or one statement over many lines, now and then the same statement twice in a row, now and then an empty statement (a semicolon of its own, whose fate is not judged) in front of a statement; delivered byte by byte, in random small chunks that split UTF-8 sequences, or as full 256-byte reads (a paste is a fast byte stream: the console never enables bracketed paste). The real Terminal.ReadLine (driven in-package through a go test -overlay driver) is called until EOF; the submitted statements, tokenised with the real SQL tokenizer, must equal the typed statements one to one and in order. In addition 64 (quick) / 1600 (thorough) whole console sessions run end to end: the console's own runTerminal loop on a pseudo-terminal with a real engine.Session behind it, the keystrokes written to the pty master; the statements are INSERTs of (sequence number, literal) into one table, mixed with statements the engine rejects (unknown table, syntax error, type error) on the same and on other lines; afterwards the table must hold exactly the valid INSERTs' rows, once each and in order, literals intact. Distinct = keystroke stream + chunking; non-trivial = a literal contains a semicolon, or a line carries several statements, or a statement spans several lines."
+	c.Rule = "lists of 1-8 statements (from the C10 grammar plus literals and quoted identifiers containing semicolons, the other quote kind, spaces, keywords, non-ASCII text incl. zero-width joiners / non-joiners, soft hyphens and a byte order mark), each terminated by a semicolon, entered with line breaks (Enter = CR, as in raw mode; now and then two in a row: an empty line inside the statement) at random token boundaries - and, in one stream in eight, inside literals in the place of their blanks (also right after a semicolon of the literal); for those streams white space inside tokens is not compared, everything else is - several statements per line or one statement over many lines, now and then the same statement twice in a row, now and then an empty statement (a semicolon of its own, whose fate is not judged) in front of a statement; delivered byte by byte, in random small chunks that split UTF-8 sequences, or as full 256-byte reads (a paste is a fast byte stream: the console never enables bracketed paste); one stream in six is wrapped in paste brackets all the same (ESC [200~ ... ESC [201~: what a terminal sends once an application has asked for bracketed paste), with several lines and statements inside one paste and tabs inside its literals - there ReadLine's paste indicator is taken as what its documentation says, an addition to valid data. The real Terminal.ReadLine (driven in-package through a go test -overlay driver) is called until EOF; the submitted statements, tokenised with the real SQL tokenizer, must equal the typed statements one to one and in order. In addition 64 (quick) / 1600 (thorough) whole console sessions run end to end: the console's own runTerminal loop on a pseudo-terminal with a real engine.Session behind it, the keystrokes written to the pty master; the statements are INSERTs of (sequence number, literal) into one table, mixed with statements the engine rejects (unknown table, syntax error, type error) on the same and on other lines; afterwards the table must hold exactly the valid INSERTs' rows, once each and in order, literals intact. Distinct = keystroke stream + chunking; non-trivial = a literal contains a semicolon, or a line carries several statements, or a statement spans several lines."
 	c.Assume = []string{"what a line break inside a literal should become (blank, line break, nothing) is not stated by the property: streams with such breaks are compared modulo white space inside tokens", "one stream in fifty carries a statement of 4-40 KB"}
 	bin, err := buildOverlayTest(c, "cmd/console", "console_driver_test.go", "zz_verif_driver_test.go")
 	if err != nil {
@@ -274,7 +289,7 @@ func checkC20(c *core.Ctx) []core.Floor {
 		c.Count("e2e_skipped_no_pty", 1)
 	}
 	return append(e2eFloors, []core.Floor{{Key: "streams", Min: 2000}, {Key: "streams_equal", Min: 500}, {Key: "hazard_semicolon_in_single_quotes", Min: 20}, {Key: "hazard_semicolon_in_double_quotes", Min: 20},
-		{Key: "three_or_more_statements_on_one_line", Min: 20}, {Key: "statement_over_four_or_more_lines", Min: 20}, {Key: "mode_typed_byte_by_byte", Min: 100}, {Key: "mode_random_chunks", Min: 100}, {Key: "mode_pasted_full_reads", Min: 100}, {Key: "streams_with_a_statement_over_4096_characters", Min: 20}}...)
+		{Key: "three_or_more_statements_on_one_line", Min: 20}, {Key: "statement_over_four_or_more_lines", Min: 20}, {Key: "mode_typed_byte_by_byte", Min: 100}, {Key: "mode_random_chunks", Min: 100}, {Key: "mode_pasted_full_reads", Min: 100}, {Key: "mode_bracketed_pasted_full_reads", Min: 20}, {Key: "mode_bracketed_typed_byte_by_byte", Min: 20}, {Key: "streams_with_a_statement_over_4096_characters", Min: 20}}...)
 }
 
 func judgeC20(c *core.Ctx, st c20Stream, o c20Out) {
